@@ -72,7 +72,7 @@ Theorem c05_kdf_is_ts33220 :
   forall H key fcs fc p0 p1, hex_decode fcs = Some [fc] ->
   GetKDFValue H key fcs [p0; KDFLen p0; p1; KDFLen p1] = kdf H key fc [p0; p1] /\
   GetKDFValue H key fcs [p0; KDFLen p0] = kdf H key fc [p0].
-Proof. intros. split; [apply kdf2|apply kdf1]; assumption. Qed.
+Proof. exact kdf12. Qed.
 Print Assumptions c05_kdf_is_ts33220.
 
 (* the SN name RegisterUE builds is "5G:mnc<3 digits>.mcc<mcc>.3gppnetwork.org", a 2-character MNC padded with 0 *)
